@@ -1,6 +1,24 @@
-# Snippet for props/C03/spec.py (prepared by b-C06): parallel_reduce with throwing user callbacks under the task-bag scheduler
-# model (stolen right children => zombie bodies). Files: props/C03/w_reduce_throw.cpp, props/C03/h_reduce_throw.c (self-contained).
-def _rt_sched(nelem, orders, throwats, kinds=0x1f, extra=None):
+# Snippet for props/C03/spec.py (prepared by b-C06): parallel_reduce with throwing user callbacks under a task-bag model of the
+# scheduler in which right children are stolen while the left sibling is unfinished (=> zombie bodies in reduction_tree_node).
+# Files (self-contained, no dependency on props/C06): w_reduce_throw.cpp, h_reduce_throw.c, repro_reduce_throw.cpp (native).
+#
+# reduce_throw            PASSES on the unchanged tree (Body split constructor / Body::operator() throw).
+# reduce_throw_range_ctor KNOWN FINDING, fails with exactly:
+#     "reduce: storage handed out by r1::allocate never released (task / tree node leaked)"
+#   a Range copy/split constructor throws inside small_object_allocator::new_object<start_reduce>(...) (start_reduce::run /
+#   offer_work_impl): new_object has no guard, the storage is never deallocated. Native: repro_reduce_throw.cpp part A
+#   (1 thread, parallel_reduce over 8 elements, first Range split constructor throws: RSS +76 MB over 300000 calls = 256 B per
+#   call; control with operator() throwing: +0.4 MB).
+# reduce_throw_join       KNOWN FINDING, fails with exactly:
+#     "reduce: exception left start_reduce::execute() after the task had destroyed itself (Body::join threw inside fold_tree called from finalize)"
+#   start_reduce::finalize runs this->~start_reduce(), then fold_tree (-> reduction_tree_node::join -> Body::join), then
+#   deallocate(this); a throwing join leaves execute() with a destroyed, not yet deallocated task whose tree node was already
+#   decremented; the dispatcher re-dispatches that task through cancel(). Native: repro_reduce_throw.cpp part B (4 threads, 64
+#   leaves of 200 us, join throws): the very first parallel_reduce call never returns (hang).
+# known_findings.txt lines:
+#   known: property=C03 harness=reduce_throw_range_ctor assertion="reduce: storage handed out by r1::allocate never released (task / tree node leaked)" define=- :: parallel_reduce: small_object_allocator::new_object leaks the allocation when the Range copy/split constructor of the new start_reduce throws; native: props/C03/repro_reduce_throw.cpp A
+#   known: property=C03 harness=reduce_throw_join assertion="reduce: exception left start_reduce::execute() after the task had destroyed itself (Body::join threw inside fold_tree called from finalize)" define=- :: parallel_reduce: Body::join throwing inside fold_tree (finalize is not exception-safe); real library hangs; native: props/C03/repro_reduce_throw.cpp B
+def _rt_sched(nelem, orders, throwats, kinds, extra=None):
   out = []
   for (nestmask, nestpol, drain) in orders:
     for k in throwats:
@@ -8,10 +26,23 @@ def _rt_sched(nelem, orders, throwats, kinds=0x1f, extra=None):
       if extra: sc.update(extra)
       out.append(sc)
   return out
-# task orders (NESTMASK, NESTPOL, DRAIN): 0 = plain LIFO; NESTMASK bit h = a thief runs a task from the bag during the h-th body
-# invocation (NESTPOL 1: the oldest = the right child of the outermost split) => that right child finds m_ref_count == 2 => zombie body
+# task orders (NESTMASK, NESTPOL, DRAIN): (0,1,0) = plain LIFO, nothing overlaps; NESTMASK bit h = during the h-th body invocation a
+# thief runs a task from the bag (NESTPOL 1: the oldest = right child of the outermost split, 0: the newest) => that right child
+# finds m_ref_count == 2 => constructs a zombie body in the parent's zombie_space and flags has_right_zombie
 _RT_ORDERS_Q = [(0, 1, 0), (1, 1, 0), (1, 0, 0), (3, 1, 1)]
 _RT_ORDERS_T = [(nm, pol, dr) for nm in range(8) for pol in ((0, 1) if nm else (1,)) for dr in (0, 1, 3)]
+_RT_COMMON = dict(unit='reduce_throw', harness='h_reduce_throw.c', cbmc=['--unwind', '25', '--max-field-sensitivity-array-size', '256'],
+                  native_cflags=['-fno-sanitize=null'], timeout=600, mem_gb=6)
+_RT_DESC = ('real parallel_reduce(Range, Body, simple_partitioner) (start_reduce::execute/cancel/finalize/offer_work, reduction_tree_node incl. '
+            'zombie_space/has_right_zombie/join/dtor, fold_tree) under a sequential task-bag model of the scheduler whose dispatcher catch handler '
+            'behaves like the real one (capture once, cancel the group, re-dispatch the same task through cancel()); other tasks may run while a '
+            'task is inside the user body, so right children are stolen while the left sibling is unfinished (zombie bodies). The k-th user callback '
+            'of the selected kinds throws (k concrete per query). Oracle: destructors only on storage where a constructor completed, every '
+            'library-made Body/Range copy destroyed exactly once and none alive on return, tasks/tree nodes freed exactly once, wait released once, '
+            'exactly one exception captured and it is the thrown one, caller catches it once, exception object released once, no body invocation / '
+            'join after the capture, in-order result without a throw. ')
+_RT_BOUNDS = {'range': '3 (thorough 3,4) elements, grain 1', 'partitioner': 'simple', 'throw position': 'every k-th callback of the selected kinds',
+              'task order': 'enumerated (NESTMASK, NESTPOL, DRAIN), all taken tasks stolen', 'tasks': 'atomic except nested runs inside the user body'}
 
 # --- add to UNITS ---
 UNITS_SNIPPET = {
@@ -19,19 +50,14 @@ UNITS_SNIPPET = {
 }
 # --- add to HARNESSES ---
 HARNESSES_SNIPPET = [
-  dict(name='reduce_throw', unit='reduce_throw', harness='h_reduce_throw.c',
-       cbmc=['--unwind', '25', '--max-field-sensitivity-array-size', '256'],
-       native_cflags=['-fno-sanitize=null'], tiers=['quick', 'thorough'], timeout=600, mem_gb=6,
-       scenarios_quick=_rt_sched(3, _RT_ORDERS_Q, range(0, 15)),
-       scenarios_thorough=_rt_sched(3, _RT_ORDERS_T, range(0, 16)) + _rt_sched(4, [(0, 1, 0), (1, 1, 0), (3, 1, 0), (5, 0, 5), (1, 1, 7)], range(0, 22)),
-       desc='real parallel_reduce(Range, Body, simple_partitioner) (start_reduce::execute/cancel/finalize/offer_work, reduction_tree_node incl. '
-            'zombie_space/has_right_zombie/join/dtor, fold_tree) under a sequential task-bag model of the scheduler whose dispatcher catch handler '
-            'behaves like the real one (capture once, cancel the group, re-dispatch the same task through cancel()); other tasks may run while a '
-            'task is inside the user body, so right children are stolen while the left sibling is unfinished (zombie bodies). The k-th user callback '
-            '(Body split ctor / operator() / join, Range split / copy ctor; k concrete per query) throws. Oracle: destructors only on storage where a '
-            'constructor completed, every library-made Body/Range copy destroyed exactly once and none alive on return, tasks/tree nodes freed exactly '
-            'once, wait released once, exactly one exception captured and it is the thrown one, caller catches it once, exception object released '
-            'once, no body invocation / join after the capture, in-order result without a throw',
-       bounds={'range': '3 (thorough 3,4) elements, grain 1', 'partitioner': 'simple', 'throw position': 'every k-th user callback, k = 0..14 (21)',
-               'task order': 'enumerated (NESTMASK, NESTPOL, DRAIN), all taken tasks stolen', 'tasks': 'atomic except nested runs inside the user body'}),
+  dict(name='reduce_throw', tiers=['quick', 'thorough'],
+       scenarios_quick=_rt_sched(3, _RT_ORDERS_Q, range(0, 8), 0x03),
+       scenarios_thorough=_rt_sched(3, _RT_ORDERS_T, range(0, 8), 0x03) + _rt_sched(4, [(0, 1, 0), (1, 1, 0), (3, 1, 0), (5, 0, 5), (1, 1, 7), (7, 1, 3)], range(0, 11), 0x03),
+       desc=_RT_DESC + 'Throwing kinds: Body splitting constructor (incl. the one into zombie_space) and Body::operator().', bounds=_RT_BOUNDS, **_RT_COMMON),
+  dict(name='reduce_throw_range_ctor', tiers=['quick', 'thorough'],
+       scenarios=_rt_sched(3, [(0, 1, 0), (1, 1, 0)], (1, 2, 3), 0x18),
+       desc=_RT_DESC + 'Throwing kinds: Range copy / split constructor. KNOWN FINDING: small_object_allocator::new_object leaks the allocation.', bounds=_RT_BOUNDS, **_RT_COMMON),
+  dict(name='reduce_throw_join', tiers=['quick', 'thorough'],
+       scenarios=_rt_sched(3, [(1, 1, 0), (1, 0, 0), (3, 1, 1)], (1,), 0x04),
+       desc=_RT_DESC + 'Throwing kind: Body::join. KNOWN FINDING: finalize destroys the task before fold_tree, which may throw.', bounds=_RT_BOUNDS, **_RT_COMMON),
 ]
